@@ -444,6 +444,12 @@ func c18Fixed(c *Ctx) {
 		{name: "handler-fault/after-returned-call", files: map[string]string{"main.zn": "如何丙？\n\t令Z = 1\n\t令W = Z / 0\n\n如何乙？\n\t令Y = 1 / 0\n\n如何甲？\n\t令X = 1\n\t（乙）\n\t令X2 = 1\n\t拦截异常：\n\t\t令Q = 1\n\t\t（丙）\n\n令A = 1\n（甲）\n"}, accept: [][]fr{{{M, 17}, {M, 14}, {M, 3}}}},
 		{name: "handler-fault/handler-name-is-no-identifier", files: map[string]string{"main.zn": "如何乙？\n\t令K = 1\n\t令Y = 1 / 0\n\n如何甲？\n\t令K = 1\n\t（乙）\n\n\t拦截1异常：\n\t\t输出5\n\n令A = 1\n（甲）\n"}, accept: [][]fr{{{M, 13}, {M, 7}}, {{M, 13}, {M, 9}}}},
 		{name: "handler-fault/in-handler-of-handler-caller", files: map[string]string{"main.zn": "如何乙？\n\t令Y = 1 / 0\n\n\t拦截异常：\n\t\t令丁 = 【1】#5\n\n如何甲？\n\t（乙）\n\n\t拦截异常：\n\t\t令戊 = 1\n\t\t令己 = 戊 / 0\n\n令A = 1\n（甲）\n"}, accept: [][]fr{{{M, 15}, {M, 12}}}},
+		{name: "syntax/indent-two-spaces", files: map[string]string{"main.zn": "令甲 = 1\n如果 甲 == 1：\n  令乙 = 2\n令丙 = 3\n"}, accept: [][]fr{{{M, 3}}}, syntax: true, caretAt: ""},
+		{name: "syntax/indent-six-spaces-later", files: map[string]string{"main.zn": "如果 真：\n    令甲 = 1\n    令乙 = 2\n如果 真：\n      令丙 = 3\n令丁 = 4\n"}, accept: [][]fr{{{M, 5}}}, syntax: true, caretAt: ""},
+		{name: "syntax/indent-tab-in-space-file", files: map[string]string{"main.zn": "如果 真：\n    令甲 = 1\n如果 真：\n\t令乙 = 2\n"}, accept: [][]fr{{{M, 4}}}, syntax: true, caretAt: ""},
+		{name: "syntax/indent-spaces-in-tab-file", files: map[string]string{"main.zn": "如果 真：\n\t令甲 = 1\n令子 = 1\n如果 真：\n    令乙 = 2\n"}, accept: [][]fr{{{M, 5}}}, syntax: true, caretAt: ""},
+		{name: "syntax/indent-two-spaces-crlf", files: map[string]string{"main.zn": "令甲 = 1\r\n令乙 = 2\r\n如果 甲 == 1：\r\n  令丙 = 2\r\n"}, accept: [][]fr{{{M, 4}}}, syntax: true, caretAt: ""},
+		{name: "syntax/indent-two-spaces-after-multiline-literal", files: map[string]string{"main.zn": "令文 = “一\n二”\n如果 真：\n  令丙 = 2\n"}, accept: [][]fr{{{M, 4}}}, syntax: true, caretAt: ""},
 		{name: "syntax/leftover-indented-line", files: map[string]string{"main.zn": "令甲 = 1\n    令乙 = 2\n令丙 = 3\n"}, accept: [][]fr{{{M, 2}}}, syntax: true, caretAt: "令"},
 		{name: "syntax/leftover-after-block", files: map[string]string{"main.zn": "如果 真：\n\t令甲 = 1\n\t\t令乙 = 2\n"}, accept: [][]fr{{{M, 3}}}, syntax: true, caretAt: "令"},
 		{name: "syntax/after-empty-annotation", files: map[string]string{"main.zn": "注：\n令甲 = 1\n令乙 = = 0\n"}, accept: [][]fr{{{M, 3}}}, syntax: true, caretAt: ""},
